@@ -1,53 +1,82 @@
-"""SimFS: an in-memory disk behind the `open` the code under test calls.
+"""SimFS: a fault-injecting interposition layer behind the `open` the code under test calls.
 
-Handles are real io.TextIOWrapper over io.BufferedReader/Writer over SimRaw,
-so decoding, universal newlines, buffering and errors surfacing at close()
-are CPython's.  The fault plan decides raw-read chunk sizes, EIO on the k-th
-raw op, ENOSPC after B bytes, errors at open, and a crash at the k-th event
-with the in-flight raw write torn.
+Files live in a real scratch directory (`fs.root`, random name, never logged), so
+metadata calls the code may make on its paths (os.stat, os.path.exists, os.replace,
+os.fsync(fh.fileno()), os.makedirs) behave as on a real disk.  Every handle obtained
+through the seam is the real io.TextIOWrapper / io.Buffered* stack of CPython over a
+SimRaw, which wraps a real io.FileIO and decides, from the run's fault plan, raw-read
+chunk sizes, EIO on the k-th raw operation, ENOSPC after B bytes, errors at open, and a
+crash at the k-th event with the in-flight raw write torn.  All `open` modes of io.open
+are supported (text/binary, r/w/a/x, +, buffering 0).
 """
 import errno
 import io
+import os
+import shutil
+import tempfile
+
 from .kernel import SimCrash
 
 
 class SimRaw(io.RawIOBase):
-    def __init__(self, fs, path, mode):
+    def __init__(self, fs, path, fmode):
         io.RawIOBase.__init__(self)
         self.fs = fs
         self.path = path
-        self.mode = mode
-        self.pos = 0
+        self.f = io.FileIO(path, fmode)
         self.epoch = fs.epoch
         self.fs.open_handles += 1
         self._closed_once = False
 
+    # handles that outlive a crash (garbage-collected writers flushing late) must not reach the disk
     def _dead(self):
-        # handles that outlive a crash (garbage-collected writers flushing late)
         return self.fs.crashed or self.epoch != self.fs.epoch
 
+    @property
+    def name(self):
+        return self.path
+
+    @property
+    def mode(self):
+        return self.f.mode
+
     def readable(self):
-        return self.mode == "r"
+        return self.f.readable()
 
     def writable(self):
-        return self.mode in ("w", "a")
+        return self.f.writable()
 
     def seekable(self):
+        return self.f.seekable()
+
+    def fileno(self):
+        return self.f.fileno()
+
+    def isatty(self):
         return False
+
+    def seek(self, pos, whence=0):
+        return self.f.seek(pos, whence)
+
+    def tell(self):
+        return self.f.tell()
+
+    def truncate(self, size=None):
+        return self.f.truncate(size)
 
     def readinto(self, b):
         fs = self.fs
         fs.event("read", self.path)
-        data = fs.files[self.path]
-        n = min(len(b), len(data) - self.pos)
+        mv = memoryview(b)
+        n = len(mv)
         if n > 0 and fs.chunks is not None:
             n = min(n, fs.next_chunk())
-        b[:n] = data[self.pos:self.pos + n]
-        self.pos += n
-        fs.ctx.count("fs_bytes_read", n)
-        if n == 0:
+        got = self.f.readinto(mv[:n])
+        got = got or 0
+        fs.ctx.count("fs_bytes_read", got)
+        if got == 0:
             fs.saw_eof = True
-        return n
+        return got
 
     def write(self, b):
         fs = self.fs
@@ -58,51 +87,96 @@ class SimRaw(io.RawIOBase):
         n = len(b)
         if torn is not None:       # crash in flight: a prefix reaches the disk
             n = min(n, torn)
-            fs.files[self.path] += b[:n]
-            raise SimCrash("crash during write to %s" % self.path)
+            if n:
+                self.f.write(b[:n])
+            raise SimCrash("crash during write to %s" % fs.show(self.path))
         if fs.capacity is not None:
-            room = fs.capacity - fs.used()
+            room = fs.capacity - fs.written
             if room <= 0:
                 fs.ctx.fault("fs_enospc")
                 fs.errors_fired += 1
                 raise OSError(errno.ENOSPC, "No space left on device (simulated)", self.path)
             n = min(n, room)
-        fs.files[self.path] += b[:n]
+        self.f.write(b[:n])
+        fs.written += n
         fs.ctx.count("fs_bytes_written", n)
         return n
+
+    def flush(self):
+        if not self.f.closed:
+            self.f.flush()
 
     def close(self):
         if not self._closed_once:
             self._closed_once = True
-            if not self._dead():
-                self.fs.open_handles -= 1
-                self.fs.event("close", self.path)
-        io.RawIOBase.close(self)
+            try:
+                if not self._dead():
+                    self.fs.open_handles -= 1
+                    self.fs.event("close", self.path)
+            finally:
+                try:
+                    self.f.close()
+                finally:
+                    io.RawIOBase.close(self)
 
 
 class SimFS(object):
-    def __init__(self, ctx, rnd=None):
+    def __init__(self, ctx, rnd=None, prefix="dst_fs_"):
         self.ctx = ctx
         self.rnd = rnd
-        self.files = {}
-        self.dirs = set()
+        self.root = tempfile.mkdtemp(prefix=prefix)
         self.open_handles = 0
         self.epoch = 0
         self.nevents = 0
         self.chunks = None          # None = unlimited raw reads; else list/callable of sizes
         self._chunk_i = 0
-        self.capacity = None        # total bytes the disk can hold
+        self.capacity = None        # bytes that may still be written through the seam (with self.written)
+        self.written = 0
         self.faults = []            # [{"at": k, "kind": "eio"|"crash", "torn": n}]
         self.open_faults = {}       # path -> errno name
         self.errors_fired = 0
         self.crashed = False
         self.saw_eof = False
-        self.enabled = True
-        self.root = None            # real directory mirroring durable content (so os.stat & co. work); never logged
+        self.outside = 0
 
-    # -- fault plan ---------------------------------------------------------
-    def used(self):
-        return sum(len(v) for v in self.files.values())
+    # -- scratch directory ----------------------------------------------------
+    def cleanup(self):
+        shutil.rmtree(self.root, ignore_errors=True)
+
+    def path(self, logical):
+        """maps a logical name such as '/sim/seq.fasta' into the scratch directory"""
+        if logical.startswith("/sim"):
+            return self.root + logical[len("/sim"):]
+        return logical
+
+    def show(self, path):
+        """stable name for the event log (the scratch directory has a random name)"""
+        path = str(path)
+        if path.startswith(self.root):
+            return "/sim" + path[len(self.root):]
+        return path
+
+    def write_file(self, path, data):
+        d = os.path.dirname(path)
+        if d and not os.path.isdir(d):
+            os.makedirs(d)
+        with io.FileIO(path, "w") as fh:
+            fh.write(bytes(data))
+
+    def read_file(self, path):
+        try:
+            with io.FileIO(path, "r") as fh:
+                return fh.readall()
+        except (FileNotFoundError, IsADirectoryError):
+            return b""
+
+    def exists(self, path):
+        return os.path.isfile(path)
+
+    # -- fault plan -------------------------------------------------------------
+    def set_capacity(self, nbytes):
+        self.capacity = None if nbytes is None else int(nbytes)
+        self.written = 0
 
     def next_chunk(self):
         c = self.chunks
@@ -129,22 +203,8 @@ class SimFS(object):
                     self.crashed = True
                     if op == "write":
                         return int(f.get("torn", 0))
-                    raise SimCrash("crash at fs event %d (%s %s)" % (self.nevents, op, path))
+                    raise SimCrash("crash at fs event %d (%s %s)" % (self.nevents, op, self.show(path)))
         return None
-
-    def show(self, path):
-        """stable name for the event log (the real mirror directory has a random name)"""
-        if self.root and path.startswith(self.root):
-            return "/sim" + path[len(self.root):]
-        return path
-
-    def mirror(self, path):
-        """copies the durable bytes of path to the real mirror directory (metadata calls such as
-        os.stat / os.path.exists on the path then behave as on a real disk)"""
-        if self.root and path.startswith(self.root):
-            import os as _os
-            with _os.fdopen(_os.open(path, _os.O_WRONLY | _os.O_CREAT | _os.O_TRUNC, 0o644), "wb") as fh:
-                fh.write(bytes(self.files.get(path, b"")))
 
     def restart(self):
         """After a crash: the disk survives, every handle is gone."""
@@ -152,39 +212,76 @@ class SimFS(object):
         self.crashed = False
         self.open_handles = 0
 
-    # -- the seam -------------------------------------------------------------
-    def open(self, path, mode="r", buffering=-1, encoding=None, errors=None, newline=None, *a, **k):
-        path = str(path)
-        m = mode.replace("t", "")
-        if "b" in m or m not in ("r", "w", "a"):
-            raise ValueError("SimFS: unsupported mode %r" % mode)
+    # -- the seam: same contract as io.open ---------------------------------------
+    def open(self, file, mode="r", buffering=-1, encoding=None, errors=None, newline=None, closefd=True, opener=None):
+        if isinstance(file, int) or opener is not None:
+            self.outside += 1
+            return io.open(file, mode, buffering, encoding, errors, newline, closefd, opener)
+        path = os.fspath(file)
+        if isinstance(path, bytes):
+            path = os.fsdecode(path)
+        if not os.path.abspath(path).startswith(self.root):
+            # not one of the simulated files: hand over to the real open, unobserved
+            self.outside += 1
+            self.ctx.probe("open_outside_simulated_disk")
+            return io.open(file, mode, buffering, encoding, errors, newline, closefd, opener)
+        if not isinstance(mode, str):
+            raise TypeError("invalid mode: %r" % mode)
+        modes = set(mode)
+        if modes - set("axrwb+tU") or len(mode) > len(modes):
+            raise ValueError("invalid mode: %r" % mode)
+        creating, reading, writing, appending = "x" in modes, "r" in modes, "w" in modes, "a" in modes
+        updating, text, binary = "+" in modes, "t" in modes, "b" in modes
+        if text and binary:
+            raise ValueError("can't have text and binary mode at once")
+        if creating + reading + writing + appending > 1:
+            raise ValueError("can't have read/write/append mode at once")
+        if not (creating or reading or writing or appending):
+            raise ValueError("must have exactly one of read/write/append mode")
+        if binary and encoding is not None:
+            raise ValueError("binary mode doesn't take an encoding argument")
+        if binary and errors is not None:
+            raise ValueError("binary mode doesn't take an errors argument")
+        if binary and newline is not None:
+            raise ValueError("binary mode doesn't take a newline argument")
+        fmode = ("x" if creating else "") + ("r" if reading else "") + ("w" if writing else "") + ("a" if appending else "") + ("+" if updating else "")
         if path in self.open_faults:
             name = self.open_faults[path]
             self.nevents += 1
-            self.ctx.log.emit("fs", op="open", path=self.show(path), mode=m, err=name)
+            self.ctx.log.emit("fs", op="open", path=self.show(path), mode=fmode, err=name)
             self.ctx.fault("fs_open_" + name)
             self.errors_fired += 1
             raise OSError(getattr(errno, name), "%s (simulated)" % name, path)
-        if path in self.dirs:
-            self.event("open", path, mode=m)
-            raise IsADirectoryError(errno.EISDIR, "Is a directory (simulated)", path)
-        if m == "r":
-            if path not in self.files:
-                self.event("open", path, mode=m)
-                raise FileNotFoundError(errno.ENOENT, "No such file or directory (simulated)", path)
-            self.event("open", path, mode=m)
-            raw = SimRaw(self, path, "r")
-            return io.TextIOWrapper(io.BufferedReader(raw), encoding=encoding or "utf-8",
-                                    errors=errors, newline=newline)
-        self.event("open", path, mode=m)
-        if m == "w" or path not in self.files:
-            if m == "w":
-                self.files[path] = bytearray()
+        self.event("open", path, mode=fmode)
+        raw = SimRaw(self, path, fmode)          # FileNotFoundError / IsADirectoryError come from the real disk
+        result = raw
+        try:
+            line_buffering = False
+            if buffering == 1 or (buffering < 0 and raw.isatty()):
+                buffering = -1
+                line_buffering = True
+            if buffering < 0:
+                buffering = io.DEFAULT_BUFFER_SIZE
+            if buffering == 0:
+                if binary:
+                    return result
+                raise ValueError("can't have unbuffered text I/O")
+            if updating:
+                buf = io.BufferedRandom(raw, buffering)
+            elif creating or writing or appending:
+                buf = io.BufferedWriter(raw, buffering)
             else:
-                self.files.setdefault(path, bytearray())
-        raw = SimRaw(self, path, m)
-        return io.TextIOWrapper(io.BufferedWriter(raw), encoding=encoding or "utf-8",
-                                errors=errors, newline=newline)
-
-    def text(self, path):
-        return bytes(self.files.get(path, b"")).decode("utf-8", "replace")
+                buf = io.BufferedReader(raw, buffering)
+            result = buf
+            if binary:
+                return result
+            txt = io.TextIOWrapper(buf, encoding, errors, newline, line_buffering)
+            result = txt
+            txt.mode = mode
+            return result
+        except BaseException:
+            try:
+                result.close()
+            except BaseException:
+                pass
+            raise
